@@ -54,7 +54,7 @@ def main():
             axis_ok(s, f"load_recording:{key0}", full, "time", 0.0)
             dur = n / eff
             starts = [0.0, 1 / eff, 0.1234567, 10.5 / eff, dur / 2, dur - 3.3 / eff, dur, dur + 0.01]
-            lengths = [1 / eff, 0.05, 0.0501, 100.4 / eff, dur / 3]
+            lengths = [1 / eff, 0.05, 0.0501, 100.4 / eff, dur / 3, dur, dur + 0.05]   # the last two: the whole file and more, from every start
             for st, ln in itertools.product(starts, lengths):
                 en = st + ln
                 key = f"{key0}:start={st:.6f}:len={ln:.6f}"
